@@ -123,6 +123,7 @@ structure World where
   cycle : Nat := 0
   crashed : Bool := false
   thrown : Bool := false              -- an uncaught LPC error is unwinding to `setjmp (econ.context)` in backend()
+  overflow : Bool := false            -- get_user_data has discarded a full text buffer (sticky; C13-typeahead-discard)
 
 def World.maxUsers (w : World) : Nat := w.slots.length
 /-- the user object exists (created when the connection was accepted) and was not destructed -/
@@ -187,14 +188,37 @@ def accept (w : World) (k : Nat) : World :=
   let slots := if i ≥ w.slots.length then w.slots ++ List.replicate growBy none else w.slots
   { w with slots := slots.set i (some k), users := upd w.users k {}, naccepted := k }
 
+/-- bytes on the wire (`~` = CR LF) -/
+def rawLen (d : List Char) : Nat := d.length + d.count '~'
+
+/-- the most a client may have unread when backend polls: `MAX_TEXT / 16` bytes, the least get_user_data ever asks
+    recv() for - so one read always takes everything (harness discipline, enforced by harness and model alike) -/
+def recvChunk : Nat := NV.Gen.C12.maxText / NV.Gen.C12.compactDiv
+
+/-- what get_user_data does to make room before it reads (PORT_TELNET), as a function of `text_start` and the pending
+    length `text_end - text_start`: `(new text_start, discard?, space asked from recv)` - mirrors the C code -/
+def cSpaceRule (start len : Nat) : Nat × Bool × Nat :=
+  let space := (NV.Gen.C12.maxText - (start + len) - 1) / NV.Gen.C12.spaceDiv
+  if space < NV.Gen.C12.maxText / NV.Gen.C12.compactDiv then
+    let space1 := (NV.Gen.C12.maxText - len - 1) / NV.Gen.C12.spaceDiv
+    if space1 < NV.Gen.C12.maxText / NV.Gen.C12.compactDiv then (0, true, NV.Gen.C12.maxText / NV.Gen.C12.discardSpaceDiv)
+    else (0, false, space1)
+  else (start, false, space)
+
+/-- the buffer is discarded exactly when the pending text alone leaves less than `MAX_TEXT / 16` room
+    (`cSpaceRule_discard`, Lemmas.lean: `text_start` does not matter) -/
+def roomShort (len : Nat) : Bool :=
+  (NV.Gen.C12.maxText - len - 1) / NV.Gen.C12.spaceDiv < NV.Gen.C12.maxText / NV.Gen.C12.compactDiv
+
 /-- get_user_data / EOF handling for one user with a poll event -/
 def userIO (w : World) (u : Nat) : World :=
   let nt := w.net.get u
   if !nt.rx.isEmpty then
     let us := w.users.get u
-    let b := us.buf ++ copyChars us.single nt.rx
+    -- "almost 2k of data": the pending text - complete commands that wait for their turns included - is thrown away
+    let b := (if roomShort us.buf.length then [] else us.buf) ++ copyChars us.single nt.rx
     { w with users := upd w.users u { us with buf := b, cmdInBuf := us.cmdInBuf || hasCmd us.single b },
-             net := upd w.net u { nt with rx := [] } }
+             net := upd w.net u { nt with rx := [] }, overflow := w.overflow || roomShort us.buf.length }
   else if nt.eof then { w with slots := removeUser w.slots u }
   else w
 
@@ -388,17 +412,30 @@ def cycleRun (sc : Scripts) : Nat → World → World × List Ev
         (w2, e1 ++ e2)
       else (w1, e1)
 
+/-- users of the table whose descriptor is ready for the next poll round (unread data or a closed client) -/
+def readyUsers (w : World) : List Nat :=
+  (w.slots.filterMap id).filter (fun u => !(w.net.get u).rx.isEmpty || (w.net.get u).eof)
+
+/-- the poller hands out at most `MAX_EVENTS` events per round (lib/async/async_runtime_epoll.c); two are kept for
+    the listening port and the wake-up descriptor.  Harness discipline (harness and model alike): never more ready
+    descriptors than that, so one process_io sees every ready user -/
+def readyMax : Nat := NV.Gen.C12.maxEvents - 2
+
+def roundRoom (w : World) (u : Nat) : Bool :=
+  !(w.net.get u).rx.isEmpty || (w.net.get u).eof || decide ((readyUsers w).length < readyMax)
+
 /-- one harness action -/
 def step (sc : Scripts) (w : World) (c : Cmd) : World × List Ev :=
   if w.crashed then (w, []) else
   match c with
   | .conn => ({ w with nconn := w.nconn + 1 }, [Ev.conn (w.nconn + 1)])
   | .send u data =>
-    if u ≥ 1 && u ≤ w.naccepted && !(w.net.get u).eof && w.interactive u then
+    if u ≥ 1 && u ≤ w.naccepted && !(w.net.get u).eof && w.interactive u &&
+        rawLen ((w.net.get u).rx ++ data) ≤ recvChunk && roundRoom w u && !data.contains '!' then   -- (`!` escapes: not modelled)
       ({ w with net := upd w.net u { w.net.get u with rx := (w.net.get u).rx ++ data } }, [Ev.send u data])
     else (w, [])
   | .close u =>
-    if u ≥ 1 && u ≤ w.naccepted && !(w.net.get u).eof then
+    if u ≥ 1 && u ≤ w.naccepted && !(w.net.get u).eof && roundRoom w u then
       ({ w with net := upd w.net u { w.net.get u with eof := true } }, if w.interactive u then [Ev.close u] else [])
     else (w, [])
   | .cycle => cycleRun sc (weight w + 1) w
